@@ -269,6 +269,40 @@ func (g s1Gen) withHopQuery() string {
 	return b.String()
 }
 
+// orderPropQuery: stage S1o — an S1 query without ORDER BY of its own, ordered by a property of the node (ASC / DESC in any spelling,
+// optional SKIP / LIMIT).
+func (g s1Gen) orderPropQuery() string {
+	var b strings.Builder
+	b.WriteString("match (n" + Pick(g.rng, []string{"", "", ":NodeKind1", ":NodeKind2:NodeKind1", ":NodeKind2"}) + ")")
+	if g.rng.Chance(1, 2) {
+		b.WriteString(" where " + g.pred(2, 0))
+	}
+	b.WriteString(" return ")
+	n := 1 + g.rng.Intn(3)
+	items := make([]string, n)
+	for i := range items {
+		it := Pick(g.rng, []string{"n", "n.name", "n.a", "id(n)"})
+		if g.rng.Chance(1, 3) {
+			it += fmt.Sprintf(" as c%d", i)
+		}
+		items[i] = it
+	}
+	b.WriteString(strings.Join(items, ", "))
+	b.WriteString(" order by n." + Pick(g.rng, []string{"name", "a", "a", "zz", "f"}))
+	if g.rng.Bool() {
+		b.WriteString(descSpelling(b.Len()))
+	} else {
+		b.WriteString(ascSpelling(b.Len()))
+	}
+	if g.rng.Chance(1, 3) {
+		b.WriteString(" skip " + Pick(g.rng, []string{"0", "1", "2"}))
+	}
+	if g.rng.Chance(1, 3) {
+		b.WriteString(" limit " + Pick(g.rng, []string{"0", "1", "2", "5"}))
+	}
+	return b.String()
+}
+
 // countQuery: stage S1c — MATCH (n[:K…]) [WHERE p] RETURN count(n) [AS c].
 func (g s1Gen) countQuery() string {
 	var b strings.Builder
@@ -409,5 +443,9 @@ func (c01TieSuite) Gen(rng *Rng, tier string, w *bufio.Writer, stats *Stats) {
 	for i := 0; i < n/3; i++ {
 		fmt.Fprintf(w, "# case %d s3b\nq %s %d 4 0 0\n", 3*n+n/3+i+1, jsonQuote(g.withHopQuery()), rng.Intn(1<<20))
 		stats.Inc("s3b_generated")
+	}
+	for i := 0; i < n/3; i++ {
+		fmt.Fprintf(w, "# case %d s1o\nq %s %d 4 0 0\n", 3*n+2*(n/3)+i+1, jsonQuote(g.orderPropQuery()), rng.Intn(1<<20))
+		stats.Inc("s1o_generated")
 	}
 }
